@@ -52,6 +52,7 @@ Lemma oidx_of_pixel pr br x y : x < 8 * pr -> y < 4 * br ->
 Proof.
   intros Hx Hy aw. unfold sidx, oidx. cbv zeta. replace (aw / 8) with pr by (unfold aw; lia).
   set (bn := y / 4 * pr + x / 8). set (bi := y mod 4 * 8 + x mod 8).
+  replace (bn * 32 + y mod 4 * 8 + x mod 8) with (bn * 32 + bi) by (unfold bi; lia).
   assert (Hbi : bi < 32) by (unfold bi; lia).
   assert (E1 : (bn * 32 + bi) / 32 = bn) by lia. assert (E2 : (bn * 32 + bi) mod 32 = bi) by lia.
   rewrite E1, E2.
@@ -100,7 +101,7 @@ Proof.
   replace (N.to_nat (N.of_nat aw * N.of_nat (4 * br))) with (aw * (4 * br)) by lia.
   replace (N.to_nat (N.of_nat aw * N.of_nat (4 * br) / (8 * 4))) with (pr * br).
   2:{ unfold aw. rewrite N2Nat.inj_div. replace (N.to_nat (N.of_nat (8 * pr) * N.of_nat (4 * br))) with (32 * (pr * br)) by lia.
-      change (N.to_nat (8 * 4)) with 32. rewrite Nat.mul_comm, Nat.div_mul; lia. }
+      change (N.to_nat (8 * 4)) with 32. generalize (pr * br). intros q. lia. }
   rewrite Nat2N.id. change (N.to_nat 8) with 8. change (N.to_nat 4) with 4.
   rewrite b2s_pairs_flat.
   rewrite b2s_loop_scatter.
@@ -147,6 +148,87 @@ Proof.
 Qed.
 
 Lemma align_8 w : align w 8 = align8 w.
-Proof. unfold align, align8. cbn [N.leb]. destruct (N.ltb_spec 0 (w mod 8)); lia. Qed.
+Proof. unfold align, align8. change (N.leb 8 1) with false. cbv iota. destruct (N.ltb_spec 0 (w mod 8)); lia. Qed.
 Lemma align_4 h : align h 4 = align4 h.
-Proof. unfold align, align4. cbn [N.leb]. destruct (N.ltb_spec 0 (h mod 4)); lia. Qed.
+Proof. unfold align, align4. change (N.leb 4 1) with false. cbv iota. destruct (N.ltb_spec 0 (h mod 4)); lia. Qed.
+
+(* ---------------- RGB5A3 palettes ---------------- *)
+Lemma rgb5a3_pixels_nth : forall data i, 2 * i + 1 < length data ->
+  nth_error (rgb5a3_pixels data) i = Some (decode_rgb5a3_pixel (256 * nth (2 * i) data 0%N + nth (2 * i + 1) data 0%N)).
+Proof.
+  fix IH 1. intros data i H. destruct data as [|hi [|lo r]]; cbn [length] in H; try lia.
+  cbn [rgb5a3_pixels]. destruct i as [|i].
+  - reflexivity.
+  - cbn [nth_error]. rewrite IH by (cbn [length] in *; lia).
+    replace (2 * S i) with (S (S (2 * i))) by lia. replace (S (S (2 * i)) + 1) with (S (S (2 * i + 1))) by lia.
+    reflexivity.
+Qed.
+Lemma rgb5a3_pixels_length : forall data, length (rgb5a3_pixels data) = length data / 2.
+Proof.
+  fix IH 1. intros data. destruct data as [|hi [|lo r]]; try reflexivity.
+  cbn [rgb5a3_pixels length]. rewrite IH. replace (S (S (length r))) with (length r + 1 * 2) by lia.
+  rewrite Nat.div_add by lia. lia.
+Qed.
+
+(* ---------------- the whole CI8 path ---------------- *)
+Theorem palette_image_source : forall pal_data img w h,
+  (1 <= w)%N -> (1 <= h)%N ->
+  lenN img = (align8 w * align4 h)%N ->
+  (lenN pal_data mod 2 = 0)%N ->
+  (forall x y, (x < w)%N -> (y < h)%N -> (nth (N.to_nat (ci8_index w x y)) img 0 < lenN pal_data / 2)%N) ->
+  exists px, tpl_ci8_image pal_data img w h = Ok (flatten px) /\ length px = N.to_nat (w * h) /\
+    forall x y, (x < w)%N -> (y < h)%N ->
+      nth_error px (N.to_nat (y * w + x)) =
+        Some (decode_rgb5a3_pixel (be16_at pal_data (nth (N.to_nat (ci8_index w x y)) img 0%N))).
+Proof.
+  intros pal_data img w h Hw Hh Hlen Hpal Hidx.
+  unfold tpl_ci8_image, rgb5a3_decode. rewrite Hpal. cbn [N.eqb bind]. rewrite align_8, align_4.
+  set (pr := N.to_nat ((w + 7) / 8)). set (br := N.to_nat ((h + 3) / 4)).
+  assert (Hpr : 0 < pr) by (unfold pr; lia). assert (Hbr : 0 < br) by (unfold br; lia).
+  assert (Eaw : align8 w = N.of_nat (8 * pr)) by (unfold align8, pr; lia).
+  assert (Eah : align4 h = N.of_nat (4 * br)) by (unfold align4, br; lia).
+  assert (Himg : length img = 8 * pr * (4 * br)) by (unfold lenN in Hlen; rewrite Eaw, Eah in Hlen; lia).
+  set (wn := N.to_nat w). set (hn := N.to_nat h).
+  assert (Hwn : wn <= 8 * pr) by (unfold wn, pr; lia). assert (Hhn : hn <= 4 * br) by (unfold hn, br; lia).
+  rewrite Eaw, Eah.
+  set (seqd := block_to_sequential img (N.of_nat (8 * pr)) (N.of_nat (4 * br)) 8 4).
+  assert (Lseq : length seqd = 8 * pr * (4 * br)).
+  { destruct (block_to_sequential_spec img pr br 0 0 Hpr Hbr Himg ltac:(lia) ltac:(lia)) as (L & _). exact L. }
+  unfold crop. rewrite Nat2N.id. fold wn hn.
+  destruct (crop_rows_spec hn seqd (8 * pr) wn Hwn ltac:(rewrite Lseq; nia)) as (c & Ec & Lc & Hc).
+  rewrite Ec. cbn [bind].
+  set (pal := rgb5a3_pixels pal_data).
+  assert (Lpal : length pal = length pal_data / 2) by apply rgb5a3_pixels_length.
+  (* every cropped byte is the block-data byte of its pixel *)
+  assert (Hcell : forall x y, x < wn -> y < hn ->
+            nth_error c (y * wn + x) = Some (nth (N.to_nat (ci8_index w (N.of_nat x) (N.of_nat y))) img 0%N)).
+  { intros x y Hx Hy. rewrite Hc by assumption.
+    destruct (block_to_sequential_spec img pr br x y Hpr Hbr Himg ltac:(lia) ltac:(lia)) as (_ & E).
+    cbv zeta in E. fold seqd in E. rewrite E. do 2 f_equal.
+    unfold sidx, ci8_index. rewrite Eaw. lia. }
+  assert (HF : Forall (fun i => N.to_nat i < length pal) c).
+  { apply Forall_forall. intros v Hv. apply In_nth_error in Hv. destruct Hv as (j & Ej).
+    assert (Hj : j < hn * wn) by (rewrite <- Lc; apply nth_error_Some; congruence).
+    assert (Hwn0 : 0 < wn) by (unfold wn; lia).
+    pose proof (Hcell (j mod wn) (j / wn) ltac:(apply Nat.mod_upper_bound; lia) ltac:(apply Nat.div_lt_upper_bound; lia)) as E.
+    replace (j / wn * wn + j mod wn) with j in E by (pose proof (Nat.div_mod j wn); lia).
+    rewrite Ej in E. inversion E as [Ev].
+    pose proof (Hidx (N.of_nat (j mod wn)) (N.of_nat (j / wn))
+                 ltac:(pose proof (Nat.mod_upper_bound j wn); unfold wn in *; lia)
+                 ltac:(assert (j / wn < hn) by (apply Nat.div_lt_upper_bound; lia); unfold hn in *; lia)) as B.
+    rewrite Lpal. unfold lenN in B. lia. }
+  rewrite (ci8_lookup_spec pal c HF). cbn [bind].
+  eexists. split; [reflexivity|]. split; [rewrite map_length, Lc; unfold hn, wn; lia|].
+  intros x y Hx Hy.
+  replace (N.to_nat (y * w + x)) with (N.to_nat y * wn + N.to_nat x) by (unfold wn; lia).
+  pose proof (Hcell (N.to_nat x) (N.to_nat y) ltac:(unfold wn; lia) ltac:(unfold hn; lia)) as E.
+  rewrite !N2Nat.id in E.
+  rewrite (map_nth_error _ _ _ E). f_equal.
+  set (v := nth (N.to_nat (ci8_index w x y)) img 0%N) in *.
+  pose proof (Hidx x y Hx Hy) as B. fold v in B.
+  assert (Hv : 2 * N.to_nat v + 1 < length pal_data) by (unfold lenN in B, Hpal; lia).
+  pose proof (rgb5a3_pixels_nth pal_data (N.to_nat v) Hv) as Ep. fold pal in Ep.
+  rewrite (nth_error_nth _ _ ZERO_PX Ep). unfold be16_at.
+  replace (N.to_nat (2 * v)) with (2 * N.to_nat v) by lia. replace (N.to_nat (2 * v + 1)) with (2 * N.to_nat v + 1) by lia.
+  reflexivity.
+Qed.
